@@ -955,7 +955,7 @@ def run(ctx):
 
 def replay(ctx, path):
     r = json.load(open(path))
-    sess = r.get("session") or r.get("original_session")
+    sess = r.get("session") or r.get("original_session") or (r if "msgs" in r else None)      # replay file or corpus file
     if not sess:
         print(json.dumps(r, indent=1)[:4000])
         return 1
@@ -975,7 +975,10 @@ def replay(ctx, path):
                 bad.append(("model", "streams differ from Broker.seq_run (command 21)", rep))
     for rep, why in res["incomplete"]:
         print("incomplete run %s: %s" % (rep, why))
-    for k, d, rep in bad[:12]:
-        print("FAILS %s (repetition %s): %s" % (k, rep, d))
+    seen = {}
+    for k, d, rep in bad:
+        seen.setdefault(k, [d, []])[1].append(rep)
+    for k, (d, where) in seen.items():
+        print("FAILS %s in repetitions %s: %s" % (k, where, d[:1200]))
     print("%d messages, %d runs, %d failures" % (len(sess["msgs"]), res["executions"], len(bad)))
     return 1 if bad or res["incomplete"] else 0
